@@ -109,6 +109,18 @@ CHECKS["C03"] = dict(
          "datatypes); xsi:* attributes are C07 territory.",
     ref="DESIGN.md 5/C03")
 
+CHECKS["C17"] = dict(
+    technique=TECH + " - schema.decode()/encode() of documents whose prefix declarations are chosen by symbolic indices (finite-choice "
+                     "nesting scripts), names resolved with the xmlns entries the decoded data reports",
+    category="model_checking",
+    text="For every nesting script of the bound (root + two nested levels + a following sibling; per inner element one of 5 (7 thorough) "
+         "declarations over prefixes p, q, default and two URIs; 2-3 naming choices per element) and the default/JsonML (BadgerFish, "
+         "collapsed, root-only in thorough) configurations, every element key of the decoded data resolves - under the namespace scoping "
+         "rules applied to the data's own xmlns entries - to the element's expanded name, and encode(decode(doc)) restores the tags.",
+    note="Finite-choice (certified exhaustive within the script space). The documents are parsed by the real parser inside the harness "
+         "(a CrossHair artefact around ElementTree.iterparse closures is neutralised in the worker).",
+    ref="DESIGN.md 5/C17")
+
 NOT_APPLICABLE = {
     "C18": "quantifies over thread interleavings; no engine of this family here executes Python threads symbolically (CrossHair is "
            "single-threaded); see DESIGN.md section 6",
